@@ -1631,6 +1631,58 @@ def probe_parameter_api(ctx):
                       impl=[bool(b) for b in t.fixed_params_mask])
 
 
+def gfl_stream(ctx, only=None):
+    """extension stream: ParameterModelMapper.create_global_floating_params_dict on the worlds reached by the corpus
+    histories, for the exact vector and for malformed ones (too short / too long / empty): real code vs model
+    (xobs_gfl) vs an independent reading (floating names in declaration order zipped with the vector)"""
+    cases = [only] if only is not None else [{'src': c['src'], 'nz': c.get('nz', False), 'ops': c['ops']} for c in corpus_cases()]
+    exprs, impl = [], []
+    for c in cases:
+        w = PyWorld(c['src'], c.get('nz', False))
+        for op in c['ops']:
+            w.apply(op)
+        del DAMAGE[:]
+        g = w.pmm.global_paramset
+        fl = [unnm(p.name) for p in g.params if not p.isfixed]      # independent: straight from the Parameter objects
+        nf = len(fl)
+        vecs = [[VEC0 + 8 * i for i in range(nf)], [5 + 3 * i for i in range(max(nf - 1, 0))],
+                [-BIG + i for i in range(nf + 2)], []]
+        got = []
+        for vz in vecs:
+            ctx.count('gfl:' + ('exact' if len(vz) == nf else 'short' if len(vz) < nf else 'long'))
+            arr = V(vz)
+            a0 = arr.tobytes()
+            r = _res(lambda: sorted((unnm(k), fz(v)) for k, v in w.pmm.create_global_floating_params_dict(arr).items()))
+            case = {'src': c['src'], 'nz': c.get('nz', False), 'ops': [list(o) for o in c['ops']], 'gfl': list(vz)}
+            ctx.case(case)
+            want = ('Ok', sorted(zip(fl, vz)))
+            if id(g) in w.taint:
+                want = r        # OPEN finding C04-shared-parameter: the name list of a stale owner is not a view of its objects
+            if r != want:
+                ctx.violation('ParameterModelMapper.create_global_floating_params_dict', 'wrong-dictionary',
+                              f'got {r} want {want}', case=case, impl=repr(r), predicate='floating names in order zipped with the vector')
+            if arr.tobytes() != a0:
+                ctx.violation('ParameterModelMapper.create_global_floating_params_dict', 'value-vector-argument-modified',
+                              repr(arr.tolist()), case=case)
+            got.append(list(r[1]) if r[0] == 'Ok' else r)
+        impl.append((c, vecs, flat(got, [])))
+        exprs.append(f"xobs_gfl {c_list(c['src'], c_bool)} {c_list(c['ops'], c_xop)} {c_list(vecs, c_list)}")
+    if not ctx.model_ok:
+        return
+    try:
+        vals = coq_eval_raw('c04g', exprs)
+    except RuntimeError as ex:
+        ctx.broken.append({'kind': 'model-eval', 'error': str(ex)[:1500]})
+        return
+    for (c, vecs, it), v in zip(impl, vals):
+        ctx.corr_cases += 1
+        mt = coq_tokens(v)
+        if mt != it:
+            ctx.disagree('parameters.create_global_floating_params_dict',
+                         {'src': c['src'], 'nz': c.get('nz', False), 'ops': [list(o) for o in c['ops']], 'gfl': vecs[0]},
+                         ' '.join(it)[:300], ' '.join(mt)[:300])
+
+
 # ------------------------------------------------------------------ run / replay
 def run_batch(ctx, batch, tag):
     """batch: list of (case, mode).  Runs the implementation (with predicates) and the model, compares."""
@@ -1668,6 +1720,7 @@ def run_batch(ctx, batch, tag):
 def run(ctx):
     rng = ctx.rng
     probe_parameter_api(ctx)
+    gfl_stream(ctx)
     batch = [(c, 'trace') for c in corpus_cases()]
     # bounded-exhaustive: every sequence over the alphabet up to length L, one case per distinct prefix
     lays = [[False, True], [True, False, True], [True], [False, True, True, False]]
@@ -1703,4 +1756,6 @@ def replay(ctx, rp):
         ctx.notes.append('replay file has no concrete input (broken obligation): re-running the full check')
         return run(ctx)
     case = {'src': [bool(b) for b in c['src']], 'ops': [norm_op(tup(o)) for o in c['ops']], 'nz': bool(c.get('nz', False))}
+    if 'gfl' in c:
+        return gfl_stream(ctx, only=case)
     run_batch(ctx, [(case, 'trace')], 'r')
